@@ -441,7 +441,9 @@ def gen_rect(rng):
         lo0 = style_edge(rng, lo0, styles[1], -180.0, 180.0)
         la1 = style_edge(rng, la1, styles[2], -60.0, 90.0)
         lo1 = style_edge(rng, lo1, styles[3], -180.0, 180.0)
-        if la0 < la1 and lo0 < lo1 and (la1 - la0) < 46 * c and (lo1 - lo0) < 46 * c:
+        # extents below 1e-4 cell next to a grid line are below what the double index division
+        # resolves (see corpus/C20 witness `below-double-resolution`): not generated
+        if 1e-4 * c <= la1 - la0 < 46 * c and 1e-4 * c <= lo1 - lo0 < 46 * c:
             return kind, (la0, lo0, la1, lo1)
     return "single", (10.0, 10.0, 10.1, 10.1)
 
@@ -810,6 +812,12 @@ def main():
             explore_elev(ck, env, 1500, False)
     finally:
         env.close()
+    if os.environ.get("VERIF_DEBUG"):
+        import sys
+        for d in ck.disagreements[:10]:
+            print("DISAGREE", d["what"], json.dumps(d["case"])[:400], file=sys.stderr)
+        for v in ck.violations[:10]:
+            print("VIOL", v["signature"], v["what"], json.dumps(v["case"])[:400], file=sys.stderr)
     ck.finish()
 
 
